@@ -1089,6 +1089,9 @@ class FnAnalysis:
             val = AV(0, 64)
             ev = self.read_place(env, rv[1])
             dm = self.discr_map(self.place_ty(rv[1]))
+            if dm:
+                # whatever the variant, the discriminant is one of the declared ones (an `Enum as usize` table index)
+                val = AV(min(dm.values()), max(dm.values()))
             if isinstance(ev, Rec) and dm and any(isinstance(k, tuple) for k in ev.f):
                 poss = {dm[k[1]]: k[1] for k in ev.f if isinstance(k, tuple) and k[1] in dm}
                 rp = self.resolve_place(env, rv[1])
